@@ -286,7 +286,7 @@ def unionInputs (req : Json) : Except String (Bool × List Alt × List DocCase) 
 def unionH : Handler := fun req => do
   let (oneOf, alts, docs) ← unionInputs req
   let impl ← field req "impl"
-  let model := Json.mkObj [("ty", match unionRoot fnameReal vnameReal alts with
+  let model := Json.mkObj [("ty", match rootOf fnameReal vnameReal oneOf alts with
     | .untagged m => Json.mkObj [("k", "untagged"), ("vs", Json.arr (m.map uvarJson).toArray)]
     | .plain vs => tyJson (.enum vs))]
   let judge ← match impl.getObjVal? "ty" with
@@ -305,7 +305,7 @@ def unionH : Handler := fun req => do
 def urunH : Handler := fun req => do
   let (oneOf, alts, docs) ← unionInputs req
   let impl ← field req "impl"
-  let t := unionRoot fnameReal vnameReal alts
+  let t := rootOf fnameReal vnameReal oneOf alts
   let model := Json.mkObj [("runs", Json.arr (docs.map fun d => runJson d.pyValid (rtRoot t d.doc)).toArray)]
   let judge ← match impl.getObjVal? "runs" with
     | .ok rj => do
